@@ -60,6 +60,11 @@ CHECKS = {
    "2..6 replies with borrowed string fields (success and error parameters, lengths dialled around the 256-byte steps) are received through Connection::chain_call / a `more` call; every yielded &str is kept and re-read after each later item: its bytes must equal the snapshot and all held slices must lie in one buffer at the offsets of their frames. Judged for class A (the whole batch was read before the first item was yielded); class B is the known finding replystream-item-across-read (witness replayed on every run, class B cases excluded by construction and counted).",
    "Trusted: native execution - stale memory is made observable by the poisoning / quarantining allocator and the address check rather than by a memory-model tool. Only values borrowed through the reply stream are covered: for the plain receive methods the borrow checker already forbids a second receive while a borrow lives.",
    "§3 C11"),
+ "C12": ("exploration", "corpus12",
+   "generated-program testing: a seeded generator emits a corpus of proxy traits (names, renames, parameter types, lifetimes, generics, more / oneway, outputs) plus argument tuples and scripted replies; the corpus is compiled against /repo with the proxy macro (diagnostics mapped back to the generated trait) and run against a scripted socket; oracle = call object computed from the declaration (per form: plain, chain_, chain extension), metamorphic equality of the three forms, differential reply classification against the low-level receive_reply",
+   "80 (thorough 600) generated traits with 1..5 methods are expanded by the real macro and compiled; every method is called in every available form with 3 argument tuples and the captured frames must equal, as JSON, the call denoted by the declaration; 5-7 scripted replies per method must be mapped exactly as Connection::receive_reply classifies the same frames, streams item by item. A trait the macro accepts but that does not compile is a violation.",
+   "Trusted: the generator's own declaration -> expected-call function (independent snake->Pascal conversion, fixed literal tables). Program generation is not shrunk by proptest; the reported unit is one method of one trait with its full module source (replayable).",
+   "§3 C12"),
  "C13": ("exploration", "vcheck",
    "grammar-based property testing (proptest, shrinking): interface trees rendered with random legal layout, token / byte mutants, every prefix of generated texts, IDL-flavoured and arbitrary strings; oracles: deep comparison of the parsed description (public accessors) with the generating tree, an independent three-valued recogniser (valid / definitely invalid / not judged) as differential, token preservation for every accepted text, panic = violation",
    "Valid texts (every type constructor to depth 4, every legal name class, keywords as field names, own-line comments in the listed positions, LF / CRLF and arbitrary inter-token white space) must parse to exactly the generating tree; mutants, truncations at every byte and soup are classified by an independent recursive-descent recogniser: definitely invalid texts must be rejected, valid ones must yield the recogniser's tree, texts only a lenient reading accepts are not judged; every accepted text must keep all its tokens (nothing ignored); no input may panic the parser.",
@@ -131,6 +136,9 @@ def main():
             "add_only": True,
         },
         "engines": [
+            {"name": "corpus12", "path": "harness/corp12",
+             "serves_properties": ["C12"],
+             "kind_free_text": "generated program corpus: vcheck's C12 generator writes proxy traits + a reporting runner into harness/corp12/gen-out, builds the crate with cargo (release profile, opt-level 0, shared target dir) against /repo and runs it; judging happens in vcheck"},
             {"name": "vcheck", "path": "harness/vcheck",
              "serves_properties": sorted(k for k, v in CHECKS.items() if v[1] == "vcheck"),
              "kind_free_text": "Rust binary: proptest 1.11 strategies run through TestRunner (fixed seeds, shrinking, no persistence) in seed shards, plus exhaustive enumerators for bounded sub-domains; deterministic simulated transport / listener / executor (vcommon)"},
